@@ -657,6 +657,9 @@ func (a *FnAnalysis) Gates() []Gate {
 			if len(accepts) == 0 {
 				must = false
 			}
+			if uninformative(cond.Desc) {
+				continue // a bare local flag or a merge of constants: no semantic identity to freeze
+			}
 			k := fmt.Sprintf("%s|%v", cond.Desc, failVal)
 			pos := in.Pos()
 			if ex, ok := in.(*ssa.Extract); ok && !pos.IsValid() {
@@ -710,7 +713,7 @@ func (a *FnAnalysis) Gates() []Gate {
 			}
 			g.Deps = unionStr(g.Deps, deps)
 			for _, h := range hg {
-				cond := SubstParams(h.Cond, args)
+				cond := a.D.SubstFree(call.Call.Value, SubstParams(h.Cond, args))
 				key := fmt.Sprintf("%s|%v", cond, h.FailWhen)
 				if old, ok := byKey[key]; ok {
 					old.MustPass = old.MustPass || (g.MustPass && h.MustPass)
@@ -732,6 +735,42 @@ func (a *FnAnalysis) Gates() []Gate {
 		return !out[i].FailWhen && out[j].FailWhen
 	})
 	return out
+}
+
+// JointMust: every path from the entry to an accept outcome evaluates at
+// least one of the given checks (the same check made on each branch).
+func (a *FnAnalysis) JointMust(gs []Gate) bool {
+	stop := map[*ssa.BasicBlock]bool{}
+	for _, g := range gs {
+		in, ok := g.val.(ssa.Instruction)
+		if !ok || in.Block() == nil {
+			return false
+		}
+		stop[in.Block()] = true
+	}
+	accepts := a.acceptSites()
+	if len(accepts) == 0 || len(a.Fn.Blocks) == 0 {
+		return false
+	}
+	acc := map[*ssa.BasicBlock]bool{}
+	for _, x := range accepts {
+		acc[x.Block()] = true
+	}
+	seen := map[*ssa.BasicBlock]bool{}
+	work := []*ssa.BasicBlock{a.Fn.Blocks[0]}
+	for len(work) > 0 {
+		b := work[len(work)-1]
+		work = work[:len(work)-1]
+		if seen[b] || stop[b] {
+			continue
+		}
+		seen[b] = true
+		if acc[b] {
+			return false
+		}
+		work = append(work, b.Succs...)
+	}
+	return true
 }
 
 // helperCall: the call (and result index) a gate value is the verdict of.
@@ -939,7 +978,7 @@ func (a *FnAnalysis) Bounds() []string {
 					if i := strings.LastIndex(s, " #"); i > 0 {
 						s = s[:i]
 					}
-					s = SubstParams(s, args)
+					s = a.D.SubstFree(ci.Common().Value, SubstParams(s, args))
 					count[s]++
 					if n := count[s]; n > 1 {
 						set[fmt.Sprintf("%s #%d", s, n)] = true
